@@ -150,7 +150,7 @@ func (m *omap) delete(k value) {
 	if e.symKey {
 		m.nsym--
 	} else {
-		delete(m.idx, ckey(k))
+		delete(m.idx, ckey(e.key)) // the entry's own (concrete) key: k may be a symbolic key decided equal to it
 	}
 	if len(m.entries) > 32 && m.live*2 < len(m.entries) {
 		// compaction is safe only when no iterator is active; iterators hold their own index
